@@ -7,6 +7,7 @@ import (
 	"fmt"
 	"strings"
 	"sync"
+	"time"
 
 	am "github.com/pancsta/asyncmachine-go/pkg/machine"
 
@@ -20,6 +21,15 @@ type eng struct{}
 
 func (eng) Property() string { return "C01" }
 func (eng) Level() string    { return "exploration" }
+
+// CaseTimeout: a thorough enumeration batch (every history of length 4 of one
+// schema slice) takes minutes when all cores are busy.
+func (eng) CaseTimeout(tier string) time.Duration {
+	if tier == "thorough" {
+		return 15 * time.Minute
+	}
+	return 2 * time.Minute
+}
 func (eng) Rule() string {
 	return "cases: (a) every schema over <=2 states (Require/Add/Remove pairs, Multi, Auto) x every history of length 3 " +
 		"(quick) / 4 (thorough) over {add,remove,set,toggle,canadd,canremove} x every non-empty subset, plus adderr; " +
@@ -40,10 +50,10 @@ func (eng) Assumptions() []string {
 }
 
 type enumP struct {
-	N      int    `json:"n"`
-	Lo     uint64 `json:"lo"`
-	Hi     uint64 `json:"hi"`
-	Len    int    `json:"len"`
+	N   int    `json:"n"`
+	Lo  uint64 `json:"lo"`
+	Hi  uint64 `json:"hi"`
+	Len int    `json:"len"`
 }
 
 func mk(id, kind string, seed uint64, p any) core.CaseDesc {
